@@ -1,5 +1,5 @@
 (* C09 - one command line per protocol step; caller text cannot inject commands. *)
-From LibFtp Require Import Bytes Decimal Reply Endpoint DataConn Client Client_Proofs.
+From LibFtp Require Import Bytes Decimal Reply Endpoint DataConn Client Client_Proofs Global_Proofs.
 Local Open Scope N_scope.
 
 (* for every API call, every world (configuration, connection state, script of the peer): every command line the
@@ -29,3 +29,10 @@ Example C09_example :
   fst (step (init_world (mkConfig Passive true TBinary false false) [])
             (ASimple [67;87;68] (Some [97;13;10;68;69;76;69;32;98]))) = OThrow.
 Proof. vm_compute. reflexivity. Qed.
+
+(* ... over whole histories: any list of API calls, from any state of the client, against any server - every command
+   line the client ever writes is a single line (no CR, no LF inside): no caller text makes it write a second command *)
+Theorem C09_history_lines_clean : forall cs w, Forall api_verb_clean cs ->
+  exists new, w_trace (snd (steps w cs)) = w_trace w ++ new /\ Forall clean_item (wire_events new).
+Proof. exact history_lines_clean. Qed.
+Print Assumptions C09_history_lines_clean.
